@@ -689,3 +689,344 @@ Proof.
     destruct o; intuition.
   - destruct (ok_state_sequence _ _ _ H) as (A & B & C & _). auto.
 Qed.
+
+(* ================================================================== the bounded receive buffer *)
+Lemma run_snoc : forall types prog evs s e s',
+  run types prog evs = Some s -> step types prog s e = Some s' ->
+  run types prog (evs ++ [e]) = Some s'.
+Proof.
+  unfold run. intros types prog evs s e s' H1 H2. rewrite run_from_app, H1. cbn [run_from].
+  now rewrite H2.
+Qed.
+
+Lemma brun_from_app : forall cap types prog a b0 s,
+  brun_from cap types prog s (a ++ b0) =
+  match brun_from cap types prog s a with Some s' => brun_from cap types prog s' b0 | None => None end.
+Proof.
+  induction a as [|l a IH]; intros b0 s; cbn [brun_from app]; [reflexivity|].
+  destruct (bstep cap types prog s l); [apply IH | reflexivity].
+Qed.
+
+Lemma brun_snoc_inv : forall cap types prog ls l b,
+  brun cap types prog (ls ++ [l]) = Some b ->
+  exists b1, brun cap types prog ls = Some b1 /\ bstep cap types prog b1 l = Some b.
+Proof.
+  unfold brun. intros cap types prog ls l b H. rewrite brun_from_app in H.
+  destruct (brun_from cap types prog binit ls) as [b1|]; [|discriminate].
+  cbn [brun_from] in H. destruct (bstep cap types prog b1 l) as [b2|] eqn:E; [|discriminate].
+  injection H as <-. eauto.
+Qed.
+
+Lemma brun_split : forall cap types prog pre l post b,
+  brun cap types prog (pre ++ l :: post) = Some b ->
+  exists b1 b2, brun cap types prog pre = Some b1 /\ bstep cap types prog b1 l = Some b2.
+Proof.
+  unfold brun. intros cap types prog pre l post b H. rewrite brun_from_app in H.
+  destruct (brun_from cap types prog binit pre) as [b1|]; [|discriminate].
+  cbn [brun_from] in H. destruct (bstep cap types prog b1 l) as [b2|] eqn:E; [|discriminate]. eauto.
+Qed.
+
+Lemma erase_app : forall a b, erase (a ++ b) = erase a ++ erase b.
+Proof. intros; apply flat_map_app. Qed.
+Lemma sched_of_app : forall a b, sched_of (a ++ b) = sched_of a ++ sched_of b.
+Proof. intros; apply flat_map_app. Qed.
+Lemma rets_app : forall a b, rets (a ++ b) = (rets a + rets b)%nat.
+Proof. intros. unfold rets. now rewrite filter_app, app_length. Qed.
+
+(* only MRecv takes a message out of the queue; nothing else shortens it *)
+Lemma step_abuf_len : forall types prog s e s',
+  step types prog s e = Some s' ->
+  match e with
+  | MRecv _ _ => length (abuf s) = S (length (abuf s'))
+  | _ => (length (abuf s) <= length (abuf s'))%nat
+  end.
+Proof.
+  intros types prog s e s' H.
+  destruct e as [m acc| |k snap|k|k b|k m|k snap|o]; cbn [step] in H;
+    repeat match type of H with
+           | context [match ?x with _ => _ end] => destruct x eqn:?; try discriminate H
+           end;
+    try (injection H as <-); cbn [abuf]; rewrite ?app_length; cbn [length]; try lia.
+  all: match goal with E : abuf _ = _ :: _ |- _ => rewrite E; reflexivity end.
+Qed.
+
+Record Binv (cap : nat) (types : list N) (prog : program) (ls : list blabel) (b : bstate) : Prop := {
+  bi_run : run types prog (erase ls) = Some (core b);
+  bi_hand : (nhand b <= 1)%nat;
+  bi_chan : (nchan b <= cap)%nat;
+  bi_len : (nhand b + nchan b <= length (abuf (core b)))%nat;
+  bi_ret : (rets ls + unret b = length (recvs (erase ls)) + nhand b + nchan b)%nat }.
+
+Lemma binv_init : forall cap types prog, Binv cap types prog [] binit.
+Proof. intros. split; cbn; auto; lia. Qed.
+
+Lemma recvs_single : forall e,
+  length (recvs [e]) = match e with MRecv _ _ => 1%nat | _ => 0%nat end.
+Proof. destruct e; reflexivity. Qed.
+
+Lemma bstep_inv : forall cap types prog ls b l b',
+  Binv cap types prog ls b -> bstep cap types prog b l = Some b' ->
+  Binv cap types prog (ls ++ [l]) b'.
+Proof.
+  intros cap types prog ls b l b' [Hr Hh Hc Hl Ht] Hs.
+  destruct l as [e| | |].
+  - (* LEv *)
+    assert (Hgen : forall c, step types prog (core b) e = Some c ->
+              run types prog (erase (ls ++ [LEv e])) = Some c).
+    { intros c Hc'. rewrite erase_app. cbn [erase flat_map app]. eapply run_snoc; eassumption. }
+    assert (Hrets : rets (ls ++ [LEv e]) = rets ls).
+    { rewrite rets_app. unfold rets at 2. cbn. lia. }
+    assert (Hrecvs : length (recvs (erase (ls ++ [LEv e]))) =
+                     (length (recvs (erase ls)) + length (recvs [e]))%nat).
+    { rewrite erase_app, recvs_app, app_length. reflexivity. }
+    destruct e as [m acc| |k snap|k|k b0|k m|k snap|o]; cbn [bstep] in Hs.
+    6: { (* MRecv *)
+      destruct (Nat.eqb (nhand b) 1) eqn:E1; [|discriminate]. apply Nat.eqb_eq in E1.
+      destruct (step types prog (core b) (MRecv k m)) as [c|] eqn:Ec; [|discriminate].
+      injection Hs as <-. pose proof (step_abuf_len _ _ _ _ _ Ec) as Hlen. cbn beta iota in Hlen.
+      split; cbn [core nhand nchan unret]; auto; try lia.
+      rewrite Hrets, Hrecvs, recvs_single. lia. }
+    all: match type of Hs with
+         | match step ?t ?p ?s ?ev with _ => _ end = _ =>
+             destruct (step t p s ev) as [c|] eqn:Ec; [|discriminate Hs];
+             injection Hs as <-; pose proof (step_abuf_len _ _ _ _ _ Ec) as Hlen; cbn beta iota in Hlen;
+             split; cbn [core nhand nchan unret]; auto; try lia;
+             rewrite Hrets, Hrecvs, recvs_single; lia
+         end.
+  - (* LEnq *)
+    cbn [bstep] in Hs.
+    destruct (Nat.ltb (nhand b + nchan b) (length (abuf (core b))) && Nat.ltb (nchan b) cap) eqn:E;
+      [|discriminate]. apply andb_prop in E as [E1 E2]. apply Nat.ltb_lt in E1, E2.
+    injection Hs as <-.
+    split; cbn [core nhand nchan unret]; auto; try lia.
+    + rewrite erase_app. cbn [erase flat_map app]. now rewrite app_nil_r.
+    + rewrite rets_app, erase_app. cbn [erase flat_map app]. rewrite app_nil_r. unfold rets at 2. cbn. lia.
+  - (* LPop *)
+    cbn [bstep] in Hs.
+    destruct (Nat.eqb (nhand b) 0 && Nat.ltb 0 (nchan b) && is_running (mach_ (core b))) eqn:E;
+      [|discriminate]. apply andb_prop in E as [E E3]. apply andb_prop in E as [E1 E2].
+    apply Nat.eqb_eq in E1. apply Nat.ltb_lt in E2. injection Hs as <-.
+    split; cbn [core nhand nchan unret]; auto; try lia.
+    + rewrite erase_app. cbn [erase flat_map app]. now rewrite app_nil_r.
+    + rewrite rets_app, erase_app. cbn [erase flat_map app]. rewrite app_nil_r. unfold rets at 2. cbn. lia.
+  - (* LRet *)
+    cbn [bstep] in Hs. destruct (Nat.ltb 0 (unret b)) eqn:E; [|discriminate]. apply Nat.ltb_lt in E.
+    injection Hs as <-.
+    split; cbn [core nhand nchan unret]; auto; try lia.
+    + rewrite erase_app. cbn [erase flat_map app]. now rewrite app_nil_r.
+    + rewrite rets_app, erase_app. cbn [erase flat_map app]. rewrite app_nil_r. unfold rets at 2. cbn. lia.
+Qed.
+
+Lemma brun_inv : forall cap types prog ls b,
+  brun cap types prog ls = Some b -> Binv cap types prog ls b.
+Proof.
+  intros cap types prog ls. induction ls as [|l ls IH] using rev_ind; intros b H.
+  - injection H as <-. apply binv_init.
+  - destruct (brun_snoc_inv _ _ _ _ _ _ H) as (b1 & H1 & H2). eapply bstep_inv; eauto.
+Qed.
+
+(* every run with the buffer, whatever its capacity, is a run of the machine above *)
+Lemma bounded_refines_unbounded : forall cap types prog ls b,
+  brun cap types prog ls = Some b -> run types prog (erase ls) = Some (core b).
+Proof. intros. apply (bi_run _ _ _ _ _ (brun_inv _ _ _ _ _ H)). Qed.
+
+Lemma skipn_add : forall (A : Type) (a c : nat) (l : list A), skipn (a + c) l = skipn c (skipn a l).
+Proof.
+  induction a as [|a IH]; intros c l; [reflexivity|]. destruct l as [|x l]; cbn [Nat.add skipn].
+  - now destruct c.
+  - apply IH.
+Qed.
+
+Lemma queue_parts : forall b, inhand b ++ inchan b ++ blocked b = abuf (core b).
+Proof.
+  intros b. unfold inhand, inchan, blocked. rewrite skipn_add.
+  rewrite (firstn_skipn (nchan b)). apply firstn_skipn.
+Qed.
+
+(* delivered ++ in hand ++ channel ++ blocked producers = everything handed to the handler, in
+   order: nothing dropped, nothing duplicated, nothing reordered; the channel never exceeds its
+   capacity; the handler calls that returned (or are about to) are exactly the messages that
+   made it into the channel *)
+Lemma bounded_buffer_fifo_no_drop : forall cap types prog ls b,
+  brun cap types prog ls = Some b ->
+  map snd (recvs (erase ls)) ++ inhand b ++ inchan b ++ blocked b = accepted (erase ls) /\
+  (length (inchan b) <= cap)%nat /\ (length (inhand b) <= 1)%nat /\
+  length (inhand b) = nhand b /\ length (inchan b) = nchan b /\
+  (rets ls + unret b = length (recvs (erase ls)) + length (inhand b) + length (inchan b))%nat /\
+  hist (core b) = admitted (erase ls).
+Proof.
+  intros cap types prog ls b H. destruct (brun_inv _ _ _ _ _ H) as [Hr Hh Hc Hl Ht].
+  assert (L1 : length (inhand b) = nhand b).
+  { unfold inhand. rewrite firstn_length. lia. }
+  assert (L2 : length (inchan b) = nchan b).
+  { unfold inchan. rewrite firstn_length, skipn_length. lia. }
+  rewrite queue_parts, L1, L2. repeat split; auto.
+  - eapply fifo_no_loss; eassumption.
+  - eapply hist_is_admitted; eassumption.
+Qed.
+
+(* the producer blocks: when a handler call returns, its message has room *)
+Lemma handler_returns_only_with_room : forall cap types prog pre post b,
+  brun cap types prog (pre ++ LRet :: post) = Some b ->
+  (S (rets pre) <= length (recvs (erase pre)) + cap + 1)%nat.
+Proof.
+  intros cap types prog pre post b H. destruct (brun_split _ _ _ _ _ _ _ H) as (b1 & b2 & H1 & H2).
+  destruct (brun_inv _ _ _ _ _ H1) as [Hr Hh Hc Hl Ht]. cbn [bstep] in H2.
+  destruct (Nat.ltb 0 (unret b1)) eqn:E; [|discriminate]. apply Nat.ltb_lt in E. lia.
+Qed.
+
+(* ... and it is never blocked for good while the loop runs (capacity >= 1): some step of the
+   buffer or the next Receive is enabled *)
+Lemma producer_not_stuck : forall cap types prog ls b,
+  (1 <= cap)%nat -> brun cap types prog ls = Some b ->
+  mach_ (core b) = Running -> blocked b <> [] ->
+  exists l, (l = LEnq \/ l = LPop \/ exists m, l = LEv (MRecv (cur (core b)) m)) /\
+            bstep cap types prog b l <> None.
+Proof.
+  intros cap types prog ls b Hcap H Hm Hb. destruct (brun_inv _ _ _ _ _ H) as [Hr Hh Hc Hl Ht].
+  assert (Hlt : (nhand b + nchan b < length (abuf (core b)))%nat).
+  { unfold blocked in Hb. destruct (Nat.lt_ge_cases (nhand b + nchan b) (length (abuf (core b)))) as [L|L]; [exact L|].
+    exfalso. apply Hb. apply skipn_all2. exact L. }
+  destruct (nhand b) as [|[|n]] eqn:En; [| |lia].
+  - destruct (nchan b) as [|c] eqn:Ec.
+    + exists LEnq. split; [auto|]. cbn [bstep]. rewrite En, Ec.
+      replace (Nat.ltb (0 + 0) (length (abuf (core b)))) with true by (symmetry; apply Nat.ltb_lt; lia).
+      replace (Nat.ltb 0 cap) with true by (symmetry; apply Nat.ltb_lt; lia). discriminate.
+    + exists LPop. split; [auto|]. cbn [bstep]. rewrite En, Ec, Hm. discriminate.
+  - destruct (abuf (core b)) as [|m rest] eqn:Ea; [cbn in Hlt; lia|].
+    exists (LEv (MRecv (cur (core b)) m)). split; [eauto|]. cbn [bstep step]. rewrite En, Hm, Ea.
+    cbn [Nat.eqb]. rewrite Nat.eqb_refl, msg_eqb_refl. discriminate.
+Qed.
+
+(* ------------------------------------------------------------------ the executable order check *)
+Definition cntT (s : list bool) : nat := length (filter (fun x => x) s).
+Definition cntF (s : list bool) : nat := length (filter negb s).
+
+Lemma sched_ok_from_snoc : forall cap s r e x,
+  sched_ok_from cap r e (s ++ [x]) =
+  sched_ok_from cap r e s &&
+  (if x then Nat.leb (S (r + cntT s)) (e + cntF s + cap + 1) else true).
+Proof.
+  induction s as [|y s IH]; intros r e x; cbn [app sched_ok_from].
+  - unfold cntT, cntF. cbn. rewrite !Nat.add_0_r. destruct x; cbn [sched_ok_from];
+      now rewrite ?andb_true_r.
+  - destruct y; cbn [sched_ok_from]; rewrite IH; unfold cntT, cntF; cbn [filter negb length].
+    + rewrite <- andb_assoc. do 2 f_equal. destruct x; [|reflexivity].
+      now rewrite <- !plus_n_Sm.
+    + f_equal. destruct x; [|reflexivity]. now rewrite <- !plus_n_Sm.
+Qed.
+
+Lemma cnt_sched_of : forall ls,
+  cntT (sched_of ls) = rets ls /\ cntF (sched_of ls) = length (recvs (erase ls)).
+Proof.
+  induction ls as [|l ls [IH1 IH2]]; [split; reflexivity|].
+  unfold cntT, cntF, rets in *. cbn [sched_of erase flat_map]. fold (sched_of ls) (erase ls).
+  rewrite recvs_app, app_length, !filter_app, !app_length, IH1, IH2.
+  destruct l as [e| | |]; [destruct e|..]; cbn; split; lia.
+Qed.
+
+Lemma run_sched_ok : forall cap types prog ls b,
+  brun cap types prog ls = Some b -> sched_ok cap (sched_of ls) = true.
+Proof.
+  intros cap types prog ls. induction ls as [|l ls IH] using rev_ind; intros b H; [reflexivity|].
+  destruct (brun_snoc_inv _ _ _ _ _ _ H) as (b1 & H1 & H2). specialize (IH _ H1).
+  rewrite sched_of_app. unfold sched_ok in *.
+  destruct l as [e| | |]; cbn [sched_of flat_map app]; rewrite ?app_nil_r; auto.
+  - destruct e; cbn [app]; rewrite ?app_nil_r; auto. rewrite sched_ok_from_snoc, IH. reflexivity.
+  - rewrite sched_ok_from_snoc, IH. cbn [andb]. destruct (cnt_sched_of ls) as [-> ->].
+    apply Nat.leb_le. apply (handler_returns_only_with_room cap types prog ls [] b). exact H.
+Qed.
+
+(* what [sched_ok] says: at every handler return, returns so far < completed Receives + capacity + 1 *)
+Lemma sched_ok_sound : forall cap s, sched_ok cap s = true ->
+  forall pre post, s = pre ++ true :: post -> (S (cntT pre) <= cntF pre + cap + 1)%nat.
+Proof.
+  intros cap s H pre post ->. unfold sched_ok in H.
+  replace (pre ++ true :: post) with ((pre ++ [true]) ++ post) in H by (rewrite <- app_assoc; reflexivity).
+  assert (Hp : forall a c r e, sched_ok_from cap r e (a ++ c) = true -> sched_ok_from cap r e a = true).
+  { induction a as [|y a IHa]; intros c r e Hc; [reflexivity|]. cbn [app sched_ok_from] in *.
+    destruct y; [apply andb_prop in Hc as [Hc1 Hc2]; rewrite Hc1; cbn [andb]|]; eapply IHa; eassumption. }
+  apply Hp in H. rewrite sched_ok_from_snoc in H. apply andb_prop in H as [_ H].
+  apply Nat.leb_le in H. lia.
+Qed.
+
+Lemma is_prefix_sound : forall a b, is_prefix a b = true -> exists rest, b = a ++ rest.
+Proof.
+  induction a as [|x a IH]; intros b H; [exists b; reflexivity|].
+  destruct b as [|y b]; [discriminate|]. cbn [is_prefix] in H. apply andb_prop in H as [H1 H2].
+  apply msg_eqb_eq in H1. subst y. destruct (IH _ H2) as [rest ->]. exists rest. reflexivity.
+Qed.
+Lemma is_prefix_app : forall a rest, is_prefix a (a ++ rest) = true.
+Proof. induction a as [|x a IH]; intros rest; cbn [is_prefix app]; [reflexivity|]. now rewrite msg_eqb_refl, IH. Qed.
+
+Lemma hist_ok_sound : forall types hs h, hist_ok types hs h = true ->
+  map expand_ids hs = snapshot_of types h.
+Proof.
+  induction types as [|ty types IH]; intros [|x hs] h H; cbn [hist_ok] in H; try discriminate; [reflexivity|].
+  apply andb_prop in H as [H1 H2]. apply listN_eqb_eq in H1. unfold snapshot_of in *. cbn [map].
+  rewrite H1. f_equal. now apply IH.
+Qed.
+
+(* soundness of the executable form for burst observations, for every capacity *)
+Lemma burst_spec_sound : forall cap c, bspec_ok_cap cap c = true ->
+  let H := expand (b_handed c) in let R := expand (b_received c) in
+  (exists rest, H = R ++ rest) /\
+  (b_drained c = true -> R = H) /\
+  (forall pre post, expand_sched true (b_sched c) = pre ++ true :: post ->
+     (S (cntT pre) <= cntF pre + cap + 1)%nat) /\
+  map expand_ids (b_hist c) = snapshot_of (b_types c) (admitted_of R) /\
+  match b_outcome c with
+  | AFinal k => S k = length (b_prog c) /\
+                forall s, In s (b_prog c) -> can_transition s (admitted_of R) = true
+  | AErrInit k => a_init_err (nth_ast (b_prog c) k) = true
+  | AErrNext k => a_next_err (nth_ast (b_prog c) k) = true
+  | ACancelled => True
+  end.
+Proof.
+  intros cap c H0 H R. unfold bspec_ok_cap in H0. fold H R in H0.
+  apply andb_prop in H0 as [H0 H5]. apply andb_prop in H0 as [H0 H4].
+  apply andb_prop in H0 as [H0 H3]. apply andb_prop in H0 as [H1 H2].
+  destruct (is_prefix_sound _ _ H1) as [rest Hrest].
+  split; [eauto|]. split; [|split; [|split]].
+  - intros Hd. rewrite Hd in H2. apply Nat.eqb_eq in H2. rewrite Hrest in H2 |- *.
+    rewrite app_length in H2. destruct rest; [now rewrite app_nil_r | cbn [length] in H2; lia].
+  - intros pre post E. eapply sched_ok_sound; eassumption.
+  - apply hist_ok_sound. exact H4.
+  - destruct (b_outcome c); auto. apply andb_prop in H5 as [A B]. apply Nat.eqb_eq in A.
+    split; [exact A|]. unfold all_can in B. rewrite forallb_forall in B. exact B.
+Qed.
+
+Lemma admitted_is_filter : forall evs, admitted evs = admitted_of (map snd (recvs evs)).
+Proof.
+  unfold admitted_of, admitted. induction evs as [|e evs IH]; [reflexivity|]. cbn [flat_map recvs].
+  fold (recvs evs). rewrite map_app, filter_app, <- IH.
+  destruct e as [| | | | |k m0| |]; cbn [map filter app snd]; try reflexivity.
+Qed.
+
+(* ... and the checks hold of every run of the model with the buffer *)
+Lemma bounded_model_passes_burst_checks : forall cap types prog ls b,
+  brun cap types prog ls = Some b ->
+  is_prefix (map snd (recvs (erase ls))) (accepted (erase ls)) = true /\
+  sched_ok cap (sched_of ls) = true /\
+  (abuf (core b) = [] -> map snd (recvs (erase ls)) = accepted (erase ls)) /\
+  snapshot_of types (hist (core b)) = snapshot_of types (admitted_of (map snd (recvs (erase ls)))).
+Proof.
+  intros cap types prog ls b H. pose proof (bounded_refines_unbounded _ _ _ _ _ H) as Hr.
+  pose proof (fifo_no_loss _ _ _ _ Hr) as Hf. split; [|split; [|split]].
+  - rewrite <- Hf. apply is_prefix_app.
+  - eapply run_sched_ok; eassumption.
+  - intros E. rewrite E, app_nil_r in Hf. exact Hf.
+  - f_equal. rewrite (hist_is_admitted _ _ _ _ Hr). apply admitted_is_filter.
+Qed.
+
+(* the hypotheses are satisfiable: capacity 1, three messages, the producer has to wait twice *)
+Definition ex_labels : list blabel :=
+  [ LEv (MInit 0 [[]; []]); LEv (EDeliver m2 true); LEnq; LRet; LPop;
+    LEv (EDeliver m1 true); LEnq; LRet; LEv (EDeliver m2 true);
+    LEv (MRecv 0 m2); LPop; LEnq; LRet; LEv (MRecv 0 m1); LPop; LEv (MRecv 0 m2) ].
+Example ex_brun : exists b, brun 1 [1; 2] ex_prog ex_labels = Some b /\ abuf (core b) = [] /\ rets ex_labels = 3%nat.
+Proof. vm_compute. eexists; repeat split; reflexivity. Qed.
+(* with capacity 1 the second producer cannot get its message in before the loop popped the first *)
+Example ex_blocked : brun 1 [1; 2] ex_prog
+  [ LEv (MInit 0 [[]; []]); LEv (EDeliver m2 true); LEnq; LRet; LEv (EDeliver m1 true); LEnq ] = None.
+Proof. vm_compute. reflexivity. Qed.
